@@ -303,7 +303,7 @@ def _gen_q(rng, pl, idx):
                 c = rng.choice(pipegen.ROOTS)
             if c not in names:
                 names.append(c)
-        params = [[c, c] for c in names]
+        params = [[c, c.replace(".", "_")] for c in names]      # the callable's own names are identifiers
         sigd, defs, bound = {}, {}, {}
         ntrail = rng.choice([0, 0, 1, 2]) if names else 0
         for c, o in params[len(params) - ntrail:] if ntrail else []:
@@ -512,8 +512,23 @@ def gen_rewrite_case(rng, tier):
         rho = {n: n for n in _names(pl)}
         ok = True
         for i in range(nops):
-            o = _gen_op(rng, pl, i)
-            r = _op_renaming(pl, o)
+            o = r = None
+            for _attempt in range(8):
+                o = _gen_op(rng, pl, i)
+                r = _op_renaming(pl, o)
+                cur = _names(pl)
+                if len({r.get(n, n) for n in cur}) != len(cur):      # not one-to-one on the pipeline's names
+                    o = None
+                    continue
+                try:                                                 # prefer requests that are accepted
+                    apply_op(pl.copy(), o)
+                    break
+                except Exception:  # noqa: BLE001
+                    if rng.random() < 0.1:
+                        break
+                    o = None
+            if o is None:
+                o, r = {"op": "copy"}, {}
             ops.append(o)
             try:
                 pl = apply_op(pl, o)
@@ -548,7 +563,9 @@ def distribution(c):
     d = {"kind": c["kind"]}
     if c["kind"] == "rewrite":
         d["nops"] = len(c["ops"])
-        d["ops"] = "+".join(o["op"] if not (o["op"] == "scope" and o["s"] is None) else "unscope" for o in c["ops"])
+        for o in c["ops"]:
+            d["op_" + ("unscope" if (o["op"] == "scope" and o["s"] is None) else o["op"])] = 1
+        d["accepted"] = bool(c["calls"]) or None
         d["ncalls"] = min(len(c["calls"]), 12)
         d["conv"] = ("nested" if any(isinstance(v, dict) for x in c["calls"] for _, v in x["kw1"])
                      else "dotted" if any("." in k for x in c["calls"] for k, _ in x["kw1"]) else "plain")
